@@ -82,7 +82,7 @@ func runC19(c *Ctx, r *Report) {
 		})
 	}
 	create := c.Fn("object", "Environment.create")
-	update := c.Fn("object", "Environment.update")
+	update := c.FnOpt("object", "Environment.update") // optional: may have been inlined into SetNoChecks
 	setNoChecks := c.Fn("object", "Environment.SetNoChecks")
 	createOrSet := c.Fn("object", "Environment.CreateOrSet")
 	constantFn := c.Fn("object", "Constant")
